@@ -13,7 +13,7 @@ from mc.vlog import sim as V
 from mc.vlog.lexer import VlogError, ParseError
 
 LEVEL = 'model_checking'
-RULE = ('catalogue design (every library block over its parameter grid, twins sharing a module name, chains, fan-out) x '
+RULE = ('catalogue design (every library block over its parameter grid, twins sharing a module name, two different configurations of one class side by side in both orders, chains, fan-out) x '
         'placement (top / inside 1 / inside 2 structural wrappers); product BFS (py4hw state, Verilog-interpreter state) '
         'from power-up with all input vectors per step when the design has <= MAXBITS input bits, else the per-port corner '
         'alphabet {0,1,2^(w-1)-1,2^(w-1),2^w-1}; outputs compared at power-up and after every cycle; transitions on which a '
@@ -24,7 +24,7 @@ ASSUMPTIONS = [
     'BidirBuf/inout designs and designs with more than one clock wire are outside the engine subset and not compared',
     'text that does not parse/elaborate is reported under C03, not here',
 ]
-BOUNDS = {'quick': 'catalogue at the quick grids of C07/C08/C09/C14 (widths <= 2-3), wrapped placements for one representative per block/option, state cap 3000 per design',
+BOUNDS = {'quick': 'catalogue at the quick grids of C07/C08/C09/C14 (widths <= 2-3), wrapped placements for one representative per block/option, state cap 3000 per design (300 for the class pairs)',
           'thorough': 'catalogue at the thorough grids (widths up to 6-8 with the corner alphabet above 8 input bits), all placements for the quick grid, state cap 20000'}
 MAXBITS = 8
 CHUNK = 40
@@ -35,6 +35,9 @@ def design_list(tier):
     # pairs of catalogue blocks that are emitted under the same module name, side by side in one design
     for nm, a, b in catalog.twin_pairs(tier):
         out.append(('twin', {'block': 'TwinByName', 'module': nm, 'a': [a[0], a[1]], 'b': [b[0], b[1]]}, 'top'))
+    # two different configurations of the same library class side by side, in both orders
+    for nm, a, b in catalog.class_pairs(tier):
+        out.append(('twin', {'block': 'TwinByClass', 'module': nm, 'a': [a[0], a[1]], 'b': [b[0], b[1]]}, 'top'))
     if tier == 'quick':
         for s, c in catalog.configs('quick', small=True):
             out.append((s, c, 'wrap1'))
@@ -65,15 +68,15 @@ def corner(w):
     return sorted(v for v in {0, 1, (1 << (w - 1)) - 1, 1 << (w - 1), (1 << w) - 1, (1 << w) // 3} if 0 <= v < (1 << w))
 
 
-def alphabet(ins):
+def alphabet(ins, limit=4096):
     bits = sum(w.getWidth() for _, w in ins)
-    if bits <= MAXBITS:
+    if bits <= MAXBITS and (1 << bits) <= limit:
         return list(core.vectors([w.getWidth() for _, w in ins])), True
     doms = [corner(w.getWidth()) for _, w in ins]
     tot = 1
     for dmn in doms:
         tot *= len(dmn)
-    if tot > 4096:
+    if tot > limit:
         # too many ports: all-equal corners plus one-hot deviations
         base = [dmn for dmn in doms]
         vecs = set()
@@ -177,7 +180,7 @@ def explore(source, cfg, place, res, max_states):
                                       'detail': {'missing top-level signal': n}})
             return
     res['programs'] += 1
-    alpha, full = alphabet(pr.dd.ins)
+    alpha, full = alphabet(pr.dd.ins, 64 if cfg.get('block') == 'TwinByClass' else 4096)
     if not full:
         res['corner_alphabet_designs'] += 1
 
@@ -262,7 +265,7 @@ def run_shard(d):
            'refused_names': [], 'width_violations': [], '_outcomes': set()}
     cap = 20000 if d['tier'] == 'thorough' else 3000
     for source, cfg, place in _designs(d['tier'])[d['lo']:d['hi']]:
-        explore(source, cfg, place, res, cap)
+        explore(source, cfg, place, res, 300 if cfg.get('block') == 'TwinByClass' else cap)
     res['distinct_outcomes'] = len(res.pop('_outcomes'))
     res['vacuous_ok'] = True
     res['configs'] = d['hi'] - d['lo']
